@@ -8,7 +8,9 @@
 
 pub mod acl {
     use soroban_sdk::{contract, contractimpl, symbol_short, Address, Env, Symbol, Vec};
-    use stellar_access::access_control::{set_admin, AccessControl};
+    use stellar_access::access_control::{
+        remove_role_accounts_count_no_auth, remove_role_admin_no_auth, set_admin, AccessControl,
+    };
     use stellar_macros::{has_any_role, has_role, only_admin, only_any_role, only_role};
 
     const COUNTER: Symbol = symbol_short!("CNT");
@@ -36,6 +38,20 @@ pub mod acl {
         #[only_admin]
         pub fn p_admin(e: &Env) -> u32 {
             bump(e)
+        }
+
+        /// documented use of the low-level helper ("in admin functions that implement their own
+        /// authorization logic"): the admin removes the admin role of `role`
+        #[only_admin]
+        pub fn remove_role_admin(e: &Env, role: Symbol) {
+            remove_role_admin_no_auth(e, &role);
+        }
+
+        /// documented use of the low-level helper ("when cleaning up unused roles with zero
+        /// members"): the admin removes the member counter of `role`
+        #[only_admin]
+        pub fn remove_role_count(e: &Env, role: Symbol) {
+            remove_role_accounts_count_no_auth(e, &role);
         }
 
         /// role check + require_auth injected by the macro
